@@ -18,12 +18,19 @@ fn any_image_point() -> (f64, f64) {
 
 /// every image point (role: 0 = outside the role of finding F4, 1 = inside it): total, in range, offsets in [0, 1], inside the cell of the returned number
 /// region: 0 = y > 1, 1 = |y| <= 1, 2 = y < -1, 255 = any
-fn k_c11_point(nside: u32, role: u8, region: u8) {
+/// quad: 0..=3 = x in [2 quad, 2 quad + 2) (quad 3 also takes x = 8), 255 = any
+fn k_c11_point(nside: u32, role: u8, region: u8, quad: u8) {
   let (x, y) = any_image_point();
   kani::assume(f4_role(x, y) == (role == 1));
   kani::assume(match region { 0 => y > 1.0, 1 => y >= -1.0 && y <= 1.0, 2 => y < -1.0, _ => true });
-  kani::cover!(x > 7.0, "last base cell column");
-  kani::cover!(x < 0.5, "first base cell column");
+  if quad < 4 {
+    kani::assume(x >= 2.0 * quad as f64 && (quad == 3 || x < 2.0 * quad as f64 + 2.0));
+    kani::cover!(x > 2.0 * quad as f64 + 1.5, "east part of the column");
+    kani::cover!(x < 2.0 * quad as f64 + 0.5, "west part of the column");
+  } else {
+    kani::cover!(x > 7.0, "last base cell column");
+    kani::cover!(x < 0.5, "first base cell column");
+  }
   let (h, dx, dy) = hp::ring::hash_with_dxdy(nside, 0.0, 0.0);
   assert!(h < c11_n_hash(nside), "C11: ring hash out of range");
   assert!(dx >= 0.0 && dx <= 1.0 && dy >= 0.0 && dy <= 1.0, "C11: offsets out of [0, 1]");
